@@ -3,6 +3,7 @@
 // engine. They log everything they see and return what the plan scripts.
 #include "sim.h"
 #include "world.h"
+#include <atomic>
 #include <sys/stat.h>
 
 #include <algorithm>
@@ -17,7 +18,7 @@
 
 namespace sim {
 
-static int g_serial = 0;
+static std::atomic<int> g_serial{0}; // atomic: plugins may be compiled on two threads
 
 static std::string argsStr(const Oomd::Engine::PluginArgs& args) {
   std::vector<std::pair<std::string, std::string>> v(args.begin(), args.end());
@@ -275,8 +276,19 @@ class SimHook : public Oomd::Engine::PrekillHook {
       const Oomd::ActionContext& ac) override {
     const Json::Value& h = R.plan["hooks"][id_];
     int64_t dur = 0;
-    if (h.isArray() && h.size())
-      dur = h[fires_ % h.size()].asInt64();
+    if (h.isArray() && h.size()) {
+      size_t idx = (size_t)fires_;
+      if (R.plan.get("hook_dur_by_victim", false).asBool()) {
+        // completion time as a function of (victim, tick) instead of the fire
+        // count, so that two executions that fire a different number of hooks
+        // (wet with fallbacks vs dry) stay comparable
+        uint64_t hsh = 1469598103934665603ULL;
+        for (unsigned char ch : cg.cgroup().relativePath())
+          hsh = (hsh ^ ch) * 1099511628211ULL;
+        idx = (size_t)((hsh + (uint64_t)R.tick) % h.size());
+      }
+      dur = h[(Json::ArrayIndex)(idx % h.size())].asInt64();
+    }
     else if (h.isNumeric())
       dur = h.asInt64();
     int n = g_fires++;
